@@ -5,7 +5,7 @@ from vlib import gcrun as G
 THEOREMS = ["Mmtk.Heap.floorRun_sound", "Mmtk.Heap.floorStep_floor_mono", "Mmtk.Heap.floorRun_bound"]
 META = {
     "text": "Cycle programs (`allocate ~40% of the heap (30% on SemiSpace/GenCopy) with varying size mixes, collectable semantics only; drop every root but one 40-byte anchor; [every other cycle: full-heap phase — large-object fillers requested with alloc_with_options(at_safepoint=false) for 1.1-1.5 x the heap, then 4-24 small / medium / large requests that FAIL off a safepoint (~60 failed requests per program), fillers dropped, one extra gc]; gc exhaustive; stats`) run on every collecting plan x {1,4} workers; the monitor requires `used_bytes` after every cycle <= floor + slack, where floor = max(used after the first 3 cycles) and slack = 262144 bytes (64 pages: retained TLAB / copy-allocator blocks), and no allocation may fail (`gc:oom`). Proved: a run the floor rule accepts has every sample after the warm-up bounded by (max of the warm-up samples) + slack (`floorRun_sound`, `floorRun_bound`), the floor never changes after the warm-up (`floorStep_floor_mono`).",
-    "note": "Level: proof of the verdict function, partial w.r.t. the code (page accounting is sampled: 10 cycles quick / 60 thorough). Observed: used is CONSTANT from cycle 1 on for every plan (e.g. SemiSpace 45056, Immix 65536, MarkSweep 106496).",
+    "note": "Level: proof of the verdict function, partial w.r.t. the code (page accounting is sampled: 10 cycles quick / 40 thorough). Observed: used is CONSTANT from cycle 1 on for every plan (e.g. SemiSpace 45056, Immix 65536, MarkSweep 106496).",
     "technique": "Lean 4 proof (floor rule) + run-time verification of real GC cycles + independent oracle",
     "category": "proof",
 }
